@@ -667,7 +667,7 @@ theorem implKnownField_good (hS : NoPackedMsg S) (hc : ChildGood S c) {i j : Nat
         · simp at h
         · split at h
           · simp at h
-          · cases he : implEntryLoop c S kk f.elem n r n (Elem.zeroVar (.scalar kk)) f.elem.zeroVar with
+          · cases he : implEntryLoop c S kk f.elem n (r.take n) n (Elem.zeroVar (.scalar kk)) f.elem.zeroVar with
             | ok q =>
               obtain ⟨k', v'⟩ := q
               rw [he] at h
